@@ -851,11 +851,11 @@ def _gen_gain(rng, n):
 def generate(rng, tier, scale=1):
     quick = tier == "quick"
     out = _gen_specials(rng, quick) if scale == 1 else []
-    out += _gen_random(rng, (700 if quick else 12000) * scale)
-    out += _gen_shapes(rng, (300 if quick else 4000) * scale)
+    out += _gen_random(rng, (700 if quick else 4000) * scale)
+    out += _gen_shapes(rng, (300 if quick else 1500) * scale)
     r4 = __import__("random").Random(rng.random())
-    out += _gen_free(r4, (160 if quick else 2500) * scale)
-    out += _gen_gain(r4, (160 if quick else 2500) * scale)
+    out += _gen_free(r4, (160 if quick else 800) * scale)
+    out += _gen_gain(r4, (160 if quick else 800) * scale)
     return out
 
 
